@@ -149,8 +149,14 @@ def execute(s, ch):
                 k.log("publish", o["cfg"], o["tps"])
             elif o["op"] == "register":
                 def do_reg(o=o):
-                    handles[o["reg"]] = w.deep.register_tracepoint(p.basename, 1 + N_SVC + o["reg"],
-                                                                   {"fire_count": "-1", "fire_period": "0"}, [])
+                    try:
+                        handles[o["reg"]] = w.deep.register_tracepoint(p.basename, 1 + N_SVC + o["reg"],
+                                                                       {"fire_count": "-1", "fire_period": "0"}, [])
+                    except kernel.SimKilled:
+                        raise
+                    except BaseException as e:  # noqa
+                        viol.append(V("register-raised:%s" % type(e).__name__, repr(e)))
+                        return
                     live_regs.add(o["reg"])
                     info["regs"] += 1
                 if o.get("at_poll"):
@@ -169,7 +175,12 @@ def execute(s, ch):
             elif o["op"] == "unregister":
                 h = handles.get(o["reg"])
                 if h is not None:
-                    h.unregister()
+                    try:
+                        h.unregister()
+                    except kernel.SimKilled:
+                        raise
+                    except BaseException as e:  # noqa
+                        viol.append(V("unregister-raised:%s" % type(e).__name__, repr(e)))
                     live_regs.discard(o["reg"])
             elif o["op"] == "fault":
                 pending_faults.append(o)
